@@ -220,8 +220,8 @@ def std_post_call_facts(tb, t, bb):
         out.append(("is_some", a))
         x = a
         # x.get(i) [.cloned()/.copied()] is Some  =>  i < len(x)   (std contract of slice::get with a usize index)
-        while x[0] == "call" and (str(x[1]).endswith("::cloned") or str(x[1]).endswith("::copied")) and len(x[2]) == 1:
-            x = x[2][0]
+        while (x[0] == "call" and (str(x[1]).endswith("::cloned") or str(x[1]).endswith("::copied")) and len(x[2]) == 1) or x[0] == "optderef":
+            x = x[2][0] if x[0] == "call" else x[1]
         if x[0] == "call" and cn(x[1]) == "core::slice::get" and "::get::<usize>" in str(x[1]) and len(x[2]) == 2:
             out.append(("cmp", "Lt", x[2][1], ("len", x[2][0])))
         if a[0] == "checked" and a[1] == "Sub":
